@@ -370,7 +370,7 @@ def check_c07(ctx, prog, I, modes):
     check_setup_actions(ctx, prog, I)
 
 
-def check_has_move(ctx, prog):
+def check_has_move(ctx, prog, quick=True):
     """C07.2 with wide truth tables (K = 10) so that Boolean equivalence is decided exactly."""
     ctx.rule('C07.2a', 'has_non_passing_like_action(L) is true exactly when remove_passing_like_actions leaves L non-empty '
                        '(same activation table over step x captured, same per-action test), decided by truth table')
@@ -411,6 +411,11 @@ def check_has_move(ctx, prog):
                             ctx.finding('C07.2a', fa, 'equiv:s%d:%s' % (step, trapped),
                                         'mode [%s]: the has-move shortcut and the list filter disagree on when a generated list still has '
                                         'an action (different step / capture table or different per-action test)' % mode)
+        # ---- has_move against the offered list, as exact local tables (independent of how has_move is written)
+        B.K = oldK
+        from . import rules_local
+        lt_ok = rules_local.check_hasmove_tables(ctx, prog, quick)
+        B.K = 10
         # ---- has_move structure with the per-list test stubbed by atoms
         fh = prog.one('GameState::has_move')
         if ctx.anchor('fn has_move', fh is not None):
@@ -443,6 +448,12 @@ def check_has_move(ctx, prog):
                         cp0, _ = I2.call_fn(prog.one('GameState::can_pass'), [gs_, TRUE], st_)
                         # when a pass is unconditionally available the generators are legitimately not consulted
                         ok = same_generated(prog, got_items, ref_items) or (kind != 'MustCompletePush' and cp0.bits[0] is C1)
+                        structural = ok
+                        if not ok and step < 3 and lt_ok:
+                            # before the fourth step nothing is filtered: "has a move" is "the list is non-empty", which the exact
+                            # tables (LT.hasmove) decide however has_move computes it (e.g. directly on bitboards)
+                            ok = True
+                            ctx.count('has_move_modes_decided_by_tables')
                         ctx.ob('[%s] has_move tests exactly the items valid_actions_ generates (%d)' % (mode, len(ref_items)), ok,
                                sample=(step == 1 and kind == 'PossiblePull' and gold))
                         if not ok:
@@ -457,7 +468,7 @@ def check_has_move(ctx, prog):
                         for k in range(len(gens_seen)):
                             want_has = B.bor(want_has, B.atom_bit(B.atom('tokbool', 'hnp%d' % (k + 1))))
                         got_has = option_is_none_bit(r)
-                        ok = got_has is want_has
+                        ok = got_has is want_has or (not structural and step < 3 and lt_ok)
                         ctx.ob('[%s] has_move is None iff can_pass(true) or some generated list has a non-passing-like action' % mode, ok)
                         if not ok:
                             ctx.finding('C07.2b', fh, 'combination:%s:s%d:%s' % ('G' if gold else 'S', step, kind),
